@@ -3,7 +3,8 @@
   the complexity threshold off: every function returns an expression with the ideal value its construction
   dictates.  Induction on the fuel over the whole mutual block, next to (and using) the width induction.
 -/
-import Amoco.Proofs.ExprSoundBase
+import Amoco.Proofs.ExprTablePres
+import Amoco.Proofs.ExprEvalSound
 
 namespace Amoco
 
@@ -14,6 +15,12 @@ open Expr Bits
     `Plain` expressions of one size, they have the same value under `ρ` (`NoRenderClash`). -/
 def EqOK (ρ : Val) : Prop := ∀ a b : Expr, WF a → WF b → Plain a → Plain b → a.size = b.size →
   (render a = render b ∨ hashEq a b = true) → ideal ρ a = ideal ρ b
+
+/-- the options covered by the value-soundness theorem: plain `simplify()` — neither `widening` (which produces
+    the non-deterministic `vecw`) nor `bitslice` -/
+def OptsOK (o : Opts) : Prop := o.widening = false ∧ o.bitslice = false
+
+theorem OptsOK_default : OptsOK {} := ⟨rfl, rfl⟩
 
 /-- value postcondition -/
 def SPost (ρ : Val) (v : Nat) (r : R Expr) : Prop := ∀ e, r = .ok e → Plain e ∧ ideal ρ e = v
@@ -42,11 +49,14 @@ variable (cfg : Cfg) (ρ : Val)
 
 /-- the induction hypothesis of the value-soundness proof -/
 structure SoundIH (fuel : Nat) : Prop where
-  simplify : ∀ o e, WF e → Plain e → o.widening = false → SPost ρ (ideal ρ e) (simplify cfg fuel o e)
+  simplify : ∀ o e, WF e → Plain e → OptsOK o → SPost ρ (ideal ρ e) (simplify cfg fuel o e)
   eqn1 : ∀ o r size sf prop, WF r → Plain r → size = r.size → (o = Op.sub ∨ o = Op.not) →
       SPost ρ (unSem o r.size (ideal ρ r)) (eqn1 cfg fuel o r size sf prop)
-  eqn2 : ∀ opts o l r size sf prop, WF (.op o l r size sf prop) → Plain (.op o l r size sf prop) → opts.widening = false →
+  eqn2 : ∀ opts o l r size sf prop, WF (.op o l r size sf prop) → Plain (.op o l r size sf prop) → OptsOK opts →
       SPost ρ (ideal ρ (.op o l r size sf prop)) (eqn2 cfg fuel opts o l r size sf prop)
+  eqn2norm : ∀ o l r size sf prop, WF (.op o l r size sf prop) → Plain (.op o l r size sf prop) →
+      ∀ t, eqn2norm cfg fuel o l r = .ok t → Plain (.op t.1 t.2.1 t.2.2 size sf prop) ∧
+        ideal ρ (.op t.1 t.2.1 t.2.2 size sf prop) = ideal ρ (.op o l r size sf prop)
   normL : ∀ o l r size sf prop, WF (.op o l r size sf prop) → Plain (.op o l r size sf prop) →
       ∀ t, normL cfg fuel o l r = .ok t → Plain (.op t.1 t.2.1 t.2.2 size sf prop) ∧
         ideal ρ (.op t.1 t.2.1 t.2.2 size sf prop) = ideal ρ (.op o l r size sf prop)
@@ -54,17 +64,17 @@ structure SoundIH (fuel : Nat) : Prop where
       ∀ t, normR cfg fuel o l r = .ok t → Plain (.op t.1 t.2.1 t.2.2 size sf prop) ∧
         ideal ρ (.op t.1 t.2.1 t.2.2 size sf prop) = ideal ρ (.op o l r size sf prop)
   eqn2cst : ∀ opts o l rv rs rf size sf prop, WF (.op o l (.cst rv rs rf) size sf prop) →
-      Plain (.op o l (.cst rv rs rf) size sf prop) →
+      Plain (.op o l (.cst rv rs rf) size sf prop) → OptsOK opts →
       ∀ res, eqn2cst cfg fuel opts o l rv rs rf size sf = .ok (some res) →
         Plain res ∧ ideal ρ res = ideal ρ (.op o l (.cst rv rs rf) size sf prop)
   eqn2snd : ∀ opts o l rv rs rf size sf prop, WF (.op o l (.cst rv rs rf) size sf prop) →
-      Plain (.op o l (.cst rv rs rf) size sf prop) → opts.widening = false →
+      Plain (.op o l (.cst rv rs rf) size sf prop) → OptsOK opts →
       SPost ρ (ideal ρ (.op o l (.cst rv rs rf) size sf prop)) (eqn2snd cfg fuel opts o l rv rs rf size sf prop)
   eqn2tail : ∀ opts o l r size sf prop, WF (.op o l r size sf prop) → Plain (.op o l r size sf prop) →
       SPost ρ (ideal ρ (.op o l r size sf prop)) (eqn2tail cfg fuel opts o l r size sf prop)
   oper : ∀ o l r, WF l → WF r → Plain l → Plain r → agnOp o = true → (o.type ≠ 8 → l.size = r.size) →
       SPost ρ (binSem o false l.size (ideal ρ l) (ideal ρ r)) (oper cfg fuel o l r)
-  operU : ∀ o r, WF r → Plain r → (o = Op.sub ∨ o = Op.not) → SPost ρ (unSem o r.size (ideal ρ r)) (operU cfg fuel o r)
+  operU : ∀ o r, WF r → Plain r → r.isCst = false → (o = Op.sub ∨ o = Op.not) → SPost ρ (unSem o r.size (ideal ρ r)) (operU cfg fuel o r)
   apiNeg : ∀ x, WF x → Plain x → SPost ρ (unSem Op.sub x.size (ideal ρ x)) (apiNeg cfg fuel x)
   apiNot : ∀ x, WF x → Plain x → SPost ρ (unSem Op.not x.size (ideal ρ x)) (apiNot cfg fuel x)
   api : ∀ o l r, WF l → WF r → Plain l → Plain r → agnOp o = true → (o.type ≠ 8 → l.size = r.size) →
@@ -96,6 +106,7 @@ theorem soundIH_zero : SoundIH cfg ρ 0 := by
     | (rw [simplify.eq_def]; exact SPost_error _ _ _)
     | (rw [eqn1.eq_def]; exact SPost_error _ _ _)
     | (rw [eqn2.eq_def]; exact SPost_error _ _ _)
+    | (rename_i h; rw [eqn2norm.eq_def] at h; cases h)
     | (rename_i h; rw [normL.eq_def] at h; cases h)
     | (rename_i h; rw [normR.eq_def] at h; cases h)
     | (rename_i h; rw [eqn2cst.eq_def] at h; cases h)
